@@ -166,9 +166,11 @@ def run(tier):
     _forwarding(chk)
     # the drivers apply the step kernels faithfully on every output grid (step = distance to the next node, dense output
     # evaluated on the accepted segment with that segment's start time): the driver protocol of C10.d, re-filed here
-    from . import c10
+    from . import c10, c20
     from .common import Relabel
     c10._d_plain_drivers(Relabel(chk, {"C10.d": "C02.c-driver"}), tier)
+    # a cached propagation is the one computed with the requested method and order
+    c20._b_key_params(Relabel(chk, {"C20.b": "C02.d-cache"}), [x for x in c20._sites() if x.mod.name.endswith("services.system")])
     return chk
 
 
